@@ -70,7 +70,20 @@ class C12:
                     continue
                 rets.append((lv, peval(r.term, env), r))
             if len(rets) != 1 or rets[0][0] != ("const", True):
-                ctx.undec("R12.2", site, f"mode {mode}: {len(rets)} candidate returns / undetermined path")
+                # several return paths (early exits, clamped helpers): decide the piecewise predicate on a grid
+                verdict = self.grid_mode(mode, env, rets, (s1, e1, s2, e2), A, R)
+                if verdict is None:
+                    ctx.undec("R12.2", site, f"mode {mode}: {len(rets)} candidate returns / undetermined path")
+                elif verdict is True:
+                    ctx.ok("R12.2", site, f"mode {mode}: piecewise predicate over {len(rets)} return paths == "
+                                          f"min(stops) - max(starts) >= threshold on the interval grid")
+                else:
+                    pt, got_v, want_v, r = verdict
+                    ctx.bad("R12.2", self.file, "intervals_overlap", f"mode {mode}: return {show(r.term)[:80]} under {show(r.live)[:60]}",
+                            f"in mode `{mode}` intervals ({pt['a0']}, {pt['a1']}) and ({pt['b0']}, {pt['b1']})"
+                            + (f" with threshold {pt.get('A', pt.get('R'))}" if mode != "no threshold" else "")
+                            + f" give {got_v} but `min(stop1, stop2) - max(start1, start2) >= threshold` is {want_v}",
+                            r.lineno, witness={"mode": mode, "point": pt})
                 continue
             got = rets[0][1]
             want = ("cmp", "le", theta, inter)
@@ -112,6 +125,42 @@ class C12:
                     f"with min_absolute_overlap {'given' if a_given else 'None'} and min_relative_overlap={r_val} the call is "
                     f"{'rejected' if rej else 'accepted'} (specification: reject both-together and relative outside [0, 1]; 0 and 1 are valid)",
                     s.node.lineno, witness={"absolute_given": a_given, "relative": r_val})
+
+    def grid_mode(self, mode, env, rets, ivs, A, R):
+        """Evaluate the return paths of one threshold mode on a grid of interval pairs (disjoint, touching, nested,
+        equal, zero-length) and thresholds, against min(stops) - max(starts) >= threshold.
+        -> True | None (outside the formula fragment) | (point, got, want, return event)."""
+        from sa.peval import Unknown, compile_term
+        names = {ivs[0]: "a0", ivs[1]: "a1", ivs[2]: "b0", ivs[3]: "b1", A: "A", R: "R"}
+        try:
+            paths = [(compile_term(lv, names)[0], compile_term(tm, names)[0], r) for lv, tm, r in rets]
+        except Unknown:
+            return None
+        pts = [0.0, 1.0, 2.0, 3.0]
+        ivl = [(a, b) for a in pts for b in pts if a <= b]
+        ths = {"no threshold": [None], "absolute": [0.0, 0.5, 1.0, 2.0], "relative": [0.0, 0.5, 1.0]}[mode]
+        for (a0, a1), (b0, b1), th in itertools.product(ivl, ivl, ths):
+            pt = {"a0": a0, "a1": a1, "b0": b0, "b1": b1}
+            if mode == "absolute":
+                pt["A"] = th
+            if mode == "relative":
+                pt["R"] = th
+            inter = min(a1, b1) - max(a0, b0)
+            theta = 0 if mode == "no threshold" else (th if mode == "absolute" else th * min(a1 - a0, b1 - b0))
+            want = inter >= theta
+            got = None
+            for cond, val, r in paths:
+                try:
+                    if cond(dict(pt)):
+                        got = (bool(val(dict(pt))), r)
+                        break
+                except Exception:  # noqa: BLE001 - a formula that cannot be evaluated at a grid point is undecided
+                    return None
+            if got is None:
+                return None
+            if got[0] != want:
+                return pt, got[0], want, got[1]
+        return True
 
     def check_delegations(self):
         ctx = self.ctx
